@@ -22,6 +22,20 @@ HIST = ["edge_node_connectivity", "face_edge_connectivity", "edge_face_connectiv
         "face_face_connectivity", "n_nodes_per_face", "face_areas", "face_lon", "edge_lon", "node_x", "face_x",
         "edge_x", "edge_node_distances", "hole_edge_indices"]
 MARGIN = 1e-6
+# earlier tree requests of OTHER element kinds (the selection's own tree must not be the stale one)
+HIST += ["tree:kd:nodes", "tree:kd:face centers", "tree:kd:edge centers", "tree:ball:nodes", "tree:ball:face centers",
+         "tree:ball:edge centers"]
+
+
+def touch(g, h):
+    """materialise one history item on the source"""
+    if h.startswith("tree:"):
+        _, tree, kind = h.split(":")
+        t = g.get_kd_tree(kind) if tree == "kd" else g.get_ball_tree(kind)
+        pt = [1.0, 0.0, 0.0] if tree == "kd" else [0.0, 0.0]
+        t.query(pt, k=1)
+    else:
+        getattr(g, h)
 
 
 def mk_grid(m):
@@ -204,8 +218,13 @@ def gen_selection(rng, src, force_lat=None):
         ids = order[:k]
         s = faces_of_elements(src, element, ids)
         ordered = [int(i) for i in ids] if element == "face centers" else None
-        return {"kind": kind, "element": element, "center": (clon, clat), "k": k, "exp": (s, s), "ordered": None,
-                "knn_order": ordered, "n_elem": k}
+        out = {"kind": kind, "element": element, "center": (clon, clat), "k": k, "exp": (s, s), "ordered": None,
+               "knn_order": ordered, "n_elem": k}
+        if rng.random() < 0.4:
+            # the same centre given in Cartesian coordinates: the k-d tree route (chord order = great-circle order)
+            la, lo = math.radians(clat), math.radians(clon)
+            out["center_xyz"] = [math.cos(la) * math.cos(lo), math.cos(la) * math.sin(lo), math.sin(la)]
+        return out
     # constant latitude
     style = rng.choice(["random", "random", "node_lat", "node_lat", "equator"])
     if style == "node_lat":
@@ -252,7 +271,7 @@ def apply_selection(g, sel):
     if k == "circle":
         return g.subset.bounding_circle(sel["center"], sel["r"], element=sel["element"])
     if k == "knn":
-        return g.subset.nearest_neighbor(sel["center"], sel["k"], element=sel["element"])
+        return g.subset.nearest_neighbor(sel.get("center_xyz") or sel["center"], sel["k"], element=sel["element"])
     return g.cross_section.constant_latitude(sel["lat"])
 
 
@@ -269,7 +288,7 @@ def apply_selection_data(da, sel):
     if k == "circle":
         return da.subset.bounding_circle(sel["center"], sel["r"], element=sel["element"])
     if k == "knn":
-        return da.subset.nearest_neighbor(sel["center"], sel["k"], element=sel["element"])
+        return da.subset.nearest_neighbor(sel.get("center_xyz") or sel["center"], sel["k"], element=sel["element"])
     return da.cross_section.constant_latitude(sel["lat"])
 
 
@@ -530,7 +549,7 @@ def main(ck):
             g = mk_grid(m)
             try:
                 for h in hist:
-                    getattr(g, h)
+                    touch(g, h)
             except Exception as ex:
                 ck.fail("history_raises", case, {"var": h}, detail=repr(ex))
                 continue
@@ -695,7 +714,7 @@ def replay(ck, rp):
     sel["ordered"] = sd["idx"] if sd["kind"] == "face" and isinstance(sd.get("idx"), list) else None
     g = mk_grid(m)
     for h in case.get("history", []):
-        getattr(g, h)
+        touch(g, h)
     import numba
     mt = numba.config.NUMBA_NUM_THREADS
     try:
